@@ -198,4 +198,59 @@ theorem walk_rel (ev : Op → Int → Int → Option Int) (b : Body) :
           | vals vs => exact Rel.vals vs
           | exprs env' args => exact Rel.vals _
 
+theorem readsOther_false_iff (params : List Name) (args : List Expr) :
+    readsOther params args = false ↔
+      ∀ (i j : Nat) (x : Name), args[i]? = some (.var x) → params[j]? = some x → i = j := by
+  unfold readsOther
+  rw [List.any_eq_false]
+  constructor
+  · intro h i j x hi hj
+    have hil : i < args.length := by
+      have := List.getElem?_eq_some_iff.mp hi; exact this.1
+    have hjl : j < params.length := by
+      have := List.getElem?_eq_some_iff.mp hj; exact this.1
+    have := h i (List.mem_range.mpr hil)
+    simp only [hi] at this
+    rw [Bool.not_eq_true, List.any_eq_false] at this
+    have := this j (List.mem_range.mpr hjl)
+    simp [hj] at this
+    exact this
+  · intro h i hi
+    cases ha : args[i]? with
+    | none => simp
+    | some a =>
+      cases a with
+      | lit n => simp
+      | var x =>
+        simp only [Bool.not_eq_true, List.any_eq_false]
+        intro j hj
+        by_cases hp : params[j]? = some x
+        · have := h i j x ha hp
+          simp [this]
+        · simp [hp]
+
+theorem noBackwardRef_of_char (params : List Name) : ∀ (args : List Expr),
+    (∀ (i j : Nat) (x : Name), args[i]? = some (.var x) → params[j]? = some x → i = j) →
+    noBackwardRef params args = true := by
+  induction params with
+  | nil => intro args _; cases args <;> simp [noBackwardRef]
+  | cons p ps ih =>
+    intro args h
+    cases args with
+    | nil => simp [noBackwardRef]
+    | cons a rest =>
+      simp only [noBackwardRef, Bool.and_eq_true, Bool.or_eq_true]
+      refine ⟨Or.inr ?_, ih rest ?_⟩
+      · rw [List.all_eq_true]
+        intro b hb
+        obtain ⟨k, hk⟩ := List.getElem?_of_mem hb
+        by_cases hbp : b = .var p
+        · subst hbp
+          have := h (k + 1) 0 p (by simpa using hk) (by simp)
+          omega
+        · simpa using hbp
+      · intro i j x hi hj
+        have := h (i + 1) (j + 1) x (by simpa using hi) (by simpa using hj)
+        omega
+
 end SamVerif.TailRec
